@@ -43,6 +43,7 @@ var c20Excluded = []string{
 	"added (v2) field carrying both a default and unique/uniqueIndex: every existing row receives the same default, the data forbids the index",
 	"`-:migration` fields: the user tells gorm NOT to create the column, so a record of the model cannot be stored afterwards by design (and an index tag on such a field makes AutoMigrate fail with `no such column`: contradictory tags)",
 	"comment tag as a judged feature: SQLite has no column comments (ColumnType.Comment() reports ok=false); generated but nothing to reflect",
+	"Config.PrepareStmt as a configuration of the history: gorm.io/driver/sqlite's ColumnTypes reads the column list through the cached prepared `SELECT * FROM t LIMIT 1`, whose result columns stay those of the first preparation; a further AutoMigrate in the same process then re-adds a column it added before (`duplicate column name`, reproduced on the unchanged tree; driver + database/sql statement cache, outside the migrator code in scope)",
 }
 
 type c20Gen struct {
@@ -231,7 +232,7 @@ func (g *c20Gen) relation(ver string, have map[string]bool, idPK bool) []c20Fiel
 		}
 	}
 	if idPK {
-		for _, k := range []string{"toys", "badge", "tags"} {
+		for _, k := range []string{"toys", "badge", "tags", "pics"} {
 			if !have[k] {
 				opts = append(opts, k)
 			}
@@ -270,7 +271,10 @@ func (g *c20Gen) relation(ver string, have map[string]bool, idPK bool) []c20Fiel
 	case "badge":
 		return []c20Field{{Name: "Badge", Kind: "badge", Tag: join("foreignKey:GenID", cons)}}
 	case "tags":
-		return []c20Field{{Name: "Tags", Kind: "tags", Tag: join("many2many:gen_tags", cons)}}
+		// (joinForeignKey spelled out: the generated struct type has no name, the default join column would be a bare `id`)
+		return []c20Field{{Name: "Tags", Kind: "tags", Tag: join("many2many:gen_tags;joinForeignKey:GenRef", cons)}}
+	case "pics":
+		return []c20Field{{Name: "Pics", Kind: "pics", Tag: join("polymorphic:Host", cons)}}
 	case "audit":
 		return []c20Field{{Name: "Audit", Kind: "audit", Tag: g.pick("embedded", "embedded;embeddedPrefix:a_")}}
 	}
@@ -414,6 +418,68 @@ func c20GenSpec(rng *rand.Rand, tricky bool) c20Spec {
 				g.f("v2:add-field")
 			}
 		}
+	}
+	// ---- configuration and the value lists of the two AutoMigrate calls (c20_opts.go)
+	if rng.Intn(2) == 0 {
+		sp.Cfg = c20GenCfg(rng)
+	}
+	extras := func(fs []c20Field) []string {
+		var ks []string
+		for _, f := range fs {
+			if c20IsRel(f.Kind) && rng.Intn(2) == 0 {
+				ks = append(ks, f.Kind)
+			}
+		}
+		if len(ks) == 0 && rng.Intn(3) > 0 {
+			return nil // the model alone
+		}
+		ks = append(ks, "hub")
+		rng.Shuffle(len(ks), func(i, j int) { ks[i], ks[j] = ks[j], ks[i] })
+		return ks
+	}
+	if rng.Intn(2) == 0 {
+		sp.Extra1 = extras(sp.V1)
+	}
+	if rng.Intn(2) == 0 {
+		sp.Extra2 = extras(sp.V2)
+	}
+	// generator artefacts avoided (not judged): (1) check expressions spell snake_case column names, so naming strategies that
+	// change COLUMN names are not combined with check tags; (2) gorm copies the tag settings of the owner's key field onto the
+	// join table's reference column (schema/relationship.go buildMany2ManyRelation removes only column/autoincrement/index/unique),
+	// so a `check:` on a primary key naming its own column cannot be created on the join table (`no such column`, unchanged
+	// tree): key fields of models with a many2many relation carry no check tag.
+	stripCheck := func(fs []c20Field, only func(f c20Field) bool) {
+		for i, f := range fs {
+			if !only(f) || !c20HasTag(f.Tag, "check") {
+				continue
+			}
+			var keep []string
+			for _, p := range strings.Split(f.Tag, ";") {
+				if !strings.HasPrefix(strings.ToLower(strings.TrimSpace(p)), "check:") {
+					keep = append(keep, p)
+				}
+			}
+			fs[i].Tag = strings.Join(keep, ";")
+		}
+	}
+	hasTags, hasCheck := false, false
+	for _, f := range sp.V2 {
+		hasTags = hasTags || f.Kind == "tags"
+		hasCheck = hasCheck || c20HasTag(f.Tag, "check")
+	}
+	if hasTags {
+		isKey := func(f c20Field) bool { return f.Name == "ID" || c20HasTag(f.Tag, "primarykey") }
+		stripCheck(sp.V1, isKey)
+		stripCheck(sp.V2, isKey)
+	}
+	if sp.Cfg != nil && hasCheck && (sp.Cfg.Naming == "nolower" || sp.Cfg.Naming == "mixed") {
+		sp.Cfg.Naming = "prefix"
+	}
+	if sp.Cfg != nil {
+		g.f("cfg:" + sp.Cfg.String())
+	}
+	if len(sp.Extra1)+len(sp.Extra2) > 0 {
+		g.f("call:explicit-relatives")
 	}
 	for k := range g.feat {
 		sp.Feat = append(sp.Feat, k)
